@@ -106,7 +106,7 @@ let () =
           if toks.(!pos) = "X" then begin
             ignore (next ());
             let k = int_of_string (next ()) in
-            List.init k (fun _ -> let b = nz () in let sz = nz () in let h = next () in ((b, sz), h = "1"))
+            List.init k (fun _ -> let b = nz () in let sz = nz () in let h = nz () in ((b, sz), h))
           end else [] in
         assert (next () = "Q");
         let nq = int_of_string (next ()) in
@@ -181,7 +181,11 @@ let () =
         let lines_of_text () =
           let cr = (zbyte.(13), zone) in
           List.rev_map (fun (d, l) -> (d, if !crlf then l @ [cr] else l)) !text in
-        let render st l =
+        let rec int_of_nat = function O -> 0 | S n -> 1 + int_of_nat n in
+        let fmt_cache ((rq, pr), ents) =
+          "C" ^ string_of_int (int_of_nat rq) ^ "," ^ string_of_int (int_of_nat pr) ^ "|"
+          ^ String.concat "," (List.map (function None -> "-" | Some (l, c) -> (if l then "1" else "0") ^ (if c then "1" else "0")) ents) in
+        let render st (l, ss) =
           (* D is printed from the model COMPILED from the Rust source of fill_symbol (Gen/C11Src.v); where the hand-written
              model answers differently (never on the unchanged tree: c11_compiled_fill_symbol) both are shown *)
           String.concat ";" (fmt_table st :: List.map (fun (((a, b), g), c) ->
@@ -192,7 +196,7 @@ let () =
               | OutOfFuel -> "fuel!hand-written-model=" ^ fmt_out a
               | Fail -> "fail!hand-written-model=" ^ fmt_out a in
             "D" ^ d ^ "/S" ^ (match b with None -> "-" | Some (i, o) -> zs i ^ ":" ^ fmt_out o)
-            ^ "/G" ^ opt zs g) l) in
+            ^ "/G" ^ opt zs g) l @ [fmt_cache ss]) in
         let from st = match run_case_st st mbase msize extra qs with Ret l -> render st l | r -> fail r in
         let ans =
           match table_of rf with
